@@ -93,12 +93,15 @@ impl K256Affine {
         Fp::from_bytes(&self.0.x()).expect("Valid coordinate")
     }
 
-    /// Returns the y coordinate.
+    /// Returns the y coordinate (zero for the identity, like `x`).
     pub fn y(&self) -> Fp {
         // Use uncompressed encoding to get y coordinate.
         let encoded = self.0.to_encoded_point(false);
-        let y_bytes = encoded.y().expect("Uncompressed point has y coordinate");
-        Fp::from_bytes(y_bytes).expect("Valid coordinate")
+        match encoded.y() {
+            Some(y_bytes) => Fp::from_bytes(y_bytes).expect("Valid coordinate"),
+            // The SEC1 encoding of the identity carries no coordinates.
+            None => Fp::ZERO,
+        }
     }
 
     /// Creates an affine point from x and y coordinates.
